@@ -21,6 +21,20 @@ EXPLANATION = ("Ground obligations over the finite program text, each discharged
 def targets(eng):
     import ground.c13 as g
     fams = ["ids", "table", "descriptors", "direction"]
-    return [ground_target(f"ground:{f}", (lambda f=f: g.obligations(source.REPO, None, only=[f])),
-                          functions=["aioesphomeapi.core.MESSAGE_TYPE_TO_PROTO", "aioesphomeapi.connection.MESSAGE_NUMBER_TO_PROTO",
-                                     "aioesphomeapi.connection.PROTO_TO_MESSAGE_TYPE"]) for f in fams]
+    ts = [ground_target(f"ground:{f}", (lambda f=f: g.obligations(source.REPO, None, only=[f])),
+                        functions=["aioesphomeapi.core.MESSAGE_TYPE_TO_PROTO", "aioesphomeapi.connection.MESSAGE_NUMBER_TO_PROTO",
+                                   "aioesphomeapi.connection.PROTO_TO_MESSAGE_TYPE"]) for f in fams]
+    # how the table is *used*: the real process_packet, symbolically, for every type number (which ids are taken as defined, which class
+    # is instantiated for them) - the contract of C12 with its registry clause tagged C13
+    from contracts import conn
+    from pyvc.engine import Engine
+    e2 = Engine()
+    for t in conn.targets_for(e2, ["process_packet"], ["C13"]):
+        def run(eng_, opts, name=t.name):
+            e3 = Engine()
+            tt = [x for x in conn.targets_for(e3, ["process_packet"], ["C13"]) if x.name == name][0]
+            tt.run(e3, opts)
+            eng_.obligations.extend(e3.obligations)
+            eng_.assumptions_used |= e3.assumptions_used
+        ts.append(Target(t.name, "contract", run, functions=t.functions, replay=t.replay))
+    return ts
